@@ -44,7 +44,7 @@ def run(ck, tier):
         for k in ["honest"] + attacks:
             # row forgeries are tried on three column pairs (first/last, the last two, the first two): with
             # partitioned row hashing different columns are bound by different partition digests
-            for v in ((0, 1, 2) if k in ("trace", "aux", "constraint") else (0, 1) if k == "remainder" else (0,)):
+            for v in ((0, 1, 2) if k in ("trace", "aux", "constraint") else (0, 1, 2) if k == "remainder" else (0,)):
                 d = dict(c)
                 d["kind"] = k
                 d["variant"] = v
